@@ -1,6 +1,7 @@
 package rules
 
 import (
+	"fmt"
 	"go/constant"
 	"go/types"
 	"strings"
@@ -180,3 +181,31 @@ func unwrapNot(v ssa.Value) (ssa.Value, bool) {
 	}
 	return v, false
 }
+
+// paramByType returns the first parameter of f whose type, written without package qualifiers and with `*` kept,
+// equals one of the given spellings ("*Options", "Mapping", "map[string]any", "[]string", "bool", "reflect.Value#2"
+// for the second such parameter). nil when there is none: rules must treat that as "cannot decide", never index.
+func paramByType(f *ssa.Function, spellings ...string) *ssa.Parameter {
+	for _, sp := range spellings {
+		nth := 1
+		if i := strings.Index(sp, "#"); i >= 0 {
+			fmt.Sscanf(sp[i+1:], "%d", &nth)
+			sp = sp[:i]
+		}
+		seen := 0
+		for _, pa := range f.Params {
+			ts := types.TypeString(pa.Type(), func(*types.Package) string { return "" })
+			ts = strings.ReplaceAll(ts, "interface{}", "any")
+			if ts == sp {
+				seen++
+				if seen == nth {
+					return pa
+				}
+			}
+		}
+	}
+	return nil
+}
+
+// sameParam: v is the parameter p (nil-safe).
+func sameParam(v ssa.Value, p *ssa.Parameter) bool { return p != nil && v == ssa.Value(p) }
